@@ -121,6 +121,7 @@ func (c *coalescing) Run(ctx context.Context, ch chan<- struct{}) error {
 		// If the timer doesn't exist yet, we're waiting for the first event (which
 		// will fire immediately when received).
 		var timerCh <-chan time.Time
+		verifPoint("coal.run.top")
 		c.lock.RLock()
 		if c.hasTimer.Load() {
 			timerCh = c.timer.C()
@@ -135,9 +136,11 @@ func (c *coalescing) Run(ctx context.Context, ch chan<- struct{}) error {
 			return nil
 
 		case <-c.inputCh:
+			verifPoint("coal.run.input")
 			c.handleInputCh(ctx, ch)
 
 		case <-timerCh:
+			verifPoint("coal.run.timer")
 			c.handleTimerFired(ctx, ch)
 		}
 	}
@@ -199,6 +202,7 @@ func (c *coalescing) fireEvent(ctx context.Context, ch chan<- struct{}) {
 		c.wg.Add(1)
 		go func() {
 			defer c.wg.Done()
+			verifPoint("coal.fire.beforeSend")
 			select {
 			case ch <- struct{}{}:
 			case <-ctx.Done():
@@ -229,6 +233,7 @@ func (c *coalescing) Add() {
 	c.wg.Add(1)
 	go func() {
 		defer c.wg.Done()
+		verifPoint("coal.add.beforeSend")
 		select {
 		case c.inputCh <- struct{}{}:
 		case <-c.closeCh:
@@ -239,6 +244,7 @@ func (c *coalescing) Add() {
 func (c *coalescing) Close() {
 	defer func() {
 		// Prevent wg race condition on Close and Run.
+		verifPoint("coal.close.beforeLock")
 		c.lock.Lock()
 		c.wg.Wait()
 		c.lock.Unlock()
